@@ -114,7 +114,7 @@ def main():
             "guard": "--cfg subprocess_verif",
             "enable": "RUSTFLAGS=\"--cfg subprocess_verif\" (set by tools/common.py for every harness build)",
             "baseline_off_cmd": "cd /repo && cargo test --workspace --no-fail-fast --offline",
-            "source_commits": [],
+            "source_commits": ["efd480d"],
             "add_only": True,
         },
         "engines": [
